@@ -94,6 +94,12 @@
 (* (try_join_all: the batch is Err, the other futures are dropped) is not   *)
 (* part of the property and not modelled: a run that returns no summary is  *)
 (* simply not judged beyond the prefix it processed.                        *)
+(* The result of a batch (run_backtests) is a SEQUENCE with one summary per  *)
+(* run: position k holds the summary of run k, made from run k's own engine, *)
+(* and num_backtests is the number of runs (Batch / BatchOK below).  The ids *)
+(* callers give their backtests are labels, not keys: runs with equal ids    *)
+(* (the repository example clones one template id) are still distinct runs   *)
+(* with distinct results - the model identifies a run by its position only.  *)
 (* Exchange times need not increase along the dataset (late / re-published  *)
 (* ticks): the engine processes every item whatever its time; the model's   *)
 (* clock index is only read when an order is stamped (the binding opens no  *)
@@ -292,6 +298,12 @@ AppliedOK1(r) ==
 \* the summary is made once, when the engine has stopped, from this run's engine alone
 SummaryOK1(r) == /\ r.summary.made <=> r.phase = "done"
                  /\ r.phase = "done" => r.summary = Summ(r)
+
+\* the batch result: one entry per run (its length is num_backtests), entry b is run b's summary
+Batch    == [b \in Runs |-> run[b].summary]
+BatchOK  == /\ DOMAIN Batch = Runs
+            /\ \A b \in Runs : run[b].phase = "done" => (Batch[b].made /\ Batch[b] = Summ(run[b]))
+            /\ \A b \in Runs : Batch[b].made => run[b].phase = "done"
 
 Inv1(r) == TypeOK1(r) /\ PrefixAlways1(r) /\ CompleteInOrder1(r) /\ FeedInOrder1(r)
            /\ SentOK1(r) /\ ClockOwn1(r) /\ AppliedOK1(r) /\ SummaryOK1(r)
